@@ -130,6 +130,22 @@ def run(prog, tier):
         "UpperConfidenceBound": (MU + R.sym("self.kappa") * SIG, -(MU + R.sym("self.kappa") * SIG)),
         "MaxVariance": (SIG * SIG, -(SIG * SIG)),
     }
+    # the incumbent every acquisition class measures improvement against is the largest observed value: wherever mu_max is set
+    # (base class or an override), it is max(gp.y) - nothing is added to it
+    inc_bad, inc_n = [], 0
+    for ci_ in [prog.cls("AcquisitionFunction")] + prog.subclasses("AcquisitionFunction"):
+        for mname_, fn_ in ci_.methods.items():
+            rz_ = Resolver(fn_, prog, ci_.module, ci_)
+            for st_ in ast.walk(fn_):
+                if isinstance(st_, (ast.Assign, ast.AugAssign)) and U(st_.targets[0] if isinstance(st_, ast.Assign) else st_.target) == "self.mu_max":
+                    inc_n += 1
+                    t_ = rz_.term(st_.value, st_) if isinstance(st_, ast.Assign) else None
+                    gname = fn_.args.args[1].arg if len(fn_.args.args) > 1 else "gp"
+                    if t_ is None or str(U(t_)) not in (f"{gname}.y.max()", f"max({gname}.y)", "self.gp.y.max()", "max(self.gp.y)", f"amax({gname}.y)"):
+                        inc_bad.append(f"{ci_.name}.{mname_} line {st_.lineno}: `{U(st_)[:80]}`")
+    obs.append(struct_ob("refit-order", f"{prog.cls('AcquisitionFunction').module.name}.AcquisitionFunction[incumbent]", not inc_bad and inc_n > 0,
+                         "mu_max must be the maximum of the regressor's data wherever it is set: " + "; ".join(inc_bad[:2]), ACQ,
+                         prog.cls("AcquisitionFunction").node.lineno, tier="F"))
     for ci in prog.subclasses("AcquisitionFunction"):
         if ci.name not in refs:
             info.append(f"C18 sweep: acquisition class {ci.name} has no reference in the rule table; not checked")
